@@ -172,10 +172,13 @@ type computerFunc = func(*ComputedStyle, pr.KnownProp, pr.CssProperty) pr.CssPro
 
 // backgroundImage computes lenghts in gradient background-image.
 func backgroundImage(computer *ComputedStyle, _ pr.KnownProp, _value pr.CssProperty) pr.CssProperty {
-	value := _value.(pr.Images)
+	// the declared value is shared between the elements matching the rule:
+	// compute into copies of the slices
+	value := append(pr.Images(nil), _value.(pr.Images)...)
 	for i, image := range value {
 		switch gradient := image.(type) {
 		case pr.LinearGradient:
+			gradient.ColorStops = append(pr.ColorsStops(nil), gradient.ColorStops...)
 			for j, cl := range gradient.ColorStops {
 				if !cl.Position.IsNone() {
 					cl.Position = length_(computer, pr.DimOrS{Dimension: cl.Position}, -1, false).Dimension
@@ -184,6 +187,7 @@ func backgroundImage(computer *ComputedStyle, _ pr.KnownProp, _value pr.CssPrope
 			}
 			image = gradient
 		case pr.RadialGradient:
+			gradient.ColorStops = append(pr.ColorsStops(nil), gradient.ColorStops...)
 			for j, cl := range gradient.ColorStops {
 				if !cl.Position.IsNone() {
 					cl.Position = length_(computer, pr.DimOrS{Dimension: cl.Position}, -1, false).Dimension
